@@ -161,6 +161,12 @@ type HostLog struct{ E []string }
 
 func (l *HostLog) add(s string) { l.E = append(l.E, s) }
 
+// Add appends an entry.
+func (l *HostLog) Add(s string) { l.add(s) }
+
+// FmtArgs formats typed arguments for a log entry.
+func FmtArgs(a []model.Val) string { return fmtArgs(a) }
+
 func fmtArgs(a []model.Val) string {
 	p := make([]string, len(a))
 	for i, v := range a {
